@@ -149,6 +149,14 @@ def judge_value(ctx, case):
                 t.append('0b1')
                 return cls(**{name: pv, 'length': n})
             routes['kw+length-after-mutated-target'] = ('create', after_mutated_target)
+            if n >= 0 and c != 'bool':
+                # ... and right after the same token was the first item of a LIST of formats (with another value or with this one)
+                def after_list():
+                    pack([f'{name}:{n}', 'uint:3'], pv, 5)
+                    pack([f'{name}:{n}={sv}', 'int:5=-7', 'bool'], True)
+                    return pack(f'{name}:{n}', pv), pack(f'{name}:{n}={sv}')
+                routes['pack-after-list-of-formats'] = ('create', lambda: after_list()[0])
+                routes['pack-eq-after-list-of-formats'] = ('create', lambda: after_list()[1])
         # property assignment without a length in the name: integer and float types take the CURRENT length of the object
         # (so it must be a valid one for the question to be meaningful); text types take their length from the value, so
         # only the digits are judged there
